@@ -14,7 +14,11 @@
    The file system is a map path -> contents; operations become visible in program order (page-cache
    reordering and directory fsync are outside the model).  A crash may happen between any two
    operations and in the middle of a write after ANY number of bytes; a failing write may have written
-   any prefix. *)
+   any prefix.
+
+   Histories (last section): sequences of store attempts on one target, each completing, failing or
+   dying anywhere, over whatever files the earlier ones left; [OpenKeep] / [WriteAt] model a file that
+   is opened WITHOUT O_TRUNC / O_EXCL and overwritten from offset 0 (a reused temporary file). *)
 From Coq Require Import List NArith Bool Arith.
 Import ListNotations.
 
@@ -35,7 +39,14 @@ Inductive op :=
 | Close (p : path)
 | Rename (a b : path)
 | Remove (p : path)
+| OpenKeep (p : path)             (* open(p, O_CREAT) WITHOUT O_TRUNC / O_EXCL succeeded: whatever p held stays
+                                     (a new file is empty); the descriptor starts at offset 0 *)
+| WriteAt (p : path) (off : nat) (d : bytes)   (* write through a descriptor positioned at [off]: overwrites *)
 | Unknown.                        (* an operation the trace translator does not know *)
+
+(* [d] written at offset [off] of a file holding [c] (a hole is filled with zero bytes) *)
+Definition overwrite (c : bytes) (off : nat) (d : bytes) : bytes :=
+  firstn off c ++ repeat 0%N (off - length c) ++ d ++ skipn (off + length d) c.
 
 Definition apply (s : fs) (o : op) : fs :=
   match o with
@@ -43,6 +54,8 @@ Definition apply (s : fs) (o : op) : fs :=
   | Write p d => upd s p (Some (content s p ++ d))
   | Rename a b => if N.eqb a b then s else upd (upd s b (s a)) a None
   | Remove p => upd s p None
+  | OpenKeep p => upd s p (Some (content s p))
+  | WriteAt p off d => upd s p (Some (overwrite (content s p) off d))
   | Fsync _ | Close _ | Unknown => s
   end.
 
@@ -54,6 +67,8 @@ Inductive crashed : fs -> list op -> fs -> Prop :=
 | crash_here : forall s tr, crashed s tr s
 | crash_in_write : forall s p d r k, (k <= length d)%nat ->
     crashed s (Write p d :: r) (upd s p (Some (content s p ++ firstn k d)))
+| crash_in_write_at : forall s p off d r k, (k <= length d)%nat ->
+    crashed s (WriteAt p off d :: r) (upd s p (Some (overwrite (content s p) off (firstn k d))))
 | crash_later : forall s o r s', crashed (apply s o) r s' -> crashed s (o :: r) s'.
 
 (* THE SPECIFICATION: whatever the crash point, a reader of [t] sees the complete previous contents
@@ -78,6 +93,8 @@ Fixpoint crash_states (g : nat) (s : fs) (tr : list op) : list fs :=
        | o :: r =>
            match o with
            | Write p d => map (fun k => upd s p (Some (content s p ++ firstn k d))) (write_cuts g d)
+           | WriteAt p off d =>
+               map (fun k => upd s p (Some (overwrite (content s p) off (firstn k d)))) (write_cuts g d)
            | _ => []
            end ++ crash_states g (apply s o) r
        end.
@@ -105,7 +122,7 @@ Definition crash_safe_b (g : nat) (s : fs) (t : path) (tr : list op) : bool :=
    names is one rename of ANOTHER file onto [t]; everything before and after it leaves [t] alone. *)
 Definition mutates (t : path) (o : op) : bool :=
   match o with
-  | OpenTrunc p | OpenExcl p | Write p _ | Remove p => N.eqb p t
+  | OpenTrunc p | OpenExcl p | Write p _ | Remove p | OpenKeep p | WriteAt p _ _ => N.eqb p t
   | Rename a b => negb (N.eqb a b) && (N.eqb a t || N.eqb b t)
   | Fsync _ | Close _ => false
   | Unknown => true
@@ -151,3 +168,107 @@ Definition sweep_ok (obs : list outcome) : bool :=
 (* classification of a file-system state against the old and new contents *)
 Definition classify (old new : bytes) (v : option bytes) : outcome :=
   if obytes_eqb v (Some old) then Old else if obytes_eqb v (Some new) then New else Other.
+
+(* ---- histories of store operations --------------------------------------------------------------
+   A history is a sequence of store attempts on the same target.  Every attempt completes (Done), has
+   its write fail after some number of bytes and takes the error path (Failed), or dies anywhere -
+   between two operations or after any number of bytes of the write, on the normal or on the error
+   path (Died).  Whatever files an attempt leaves behind are there when the next one starts; the
+   temporary names of different attempts may coincide or differ. *)
+
+Inductive fate := Done | Failed | Died.
+
+Definition fate_eqb (a b : fate) : bool :=
+  match a, b with Done, Done | Failed, Failed | Died, Died => true | _, _ => false end.
+
+(* the repaired protocol: the temporary file is created FRESH - a new name (O_EXCL, [ex] = true) or an
+   old name truncated (O_TRUNC, [ex] = false) *)
+Definition open_fresh (ex : bool) (p : path) : op := if ex then OpenExcl p else OpenTrunc p.
+
+Definition store_fresh (ex : bool) (tmp t : path) (d : bytes) : list op :=
+  [open_fresh ex tmp; Write tmp d; Fsync tmp; Close tmp; Rename tmp t].
+
+Definition store_fresh_failed (ex : bool) (tmp : path) (d : bytes) (k : nat) : list op :=
+  [open_fresh ex tmp; Write tmp (firstn k d); Close tmp; Remove tmp].
+
+(* the protocol of a store that REUSES a temporary file without truncating it *)
+Definition store_keep (tmp t : path) (d : bytes) : list op :=
+  [OpenKeep tmp; WriteAt tmp 0 d; Fsync tmp; Close tmp; Rename tmp t].
+
+Record attempt := mkAttempt { a_excl : bool; a_tmp : path; a_data : bytes; a_fate : fate }.
+
+Inductive attempt_run (t : path) : fs -> attempt -> fs -> Prop :=
+| ar_done : forall s ex tmp d,
+    attempt_run t s (mkAttempt ex tmp d Done) (run s (store_fresh ex tmp t d))
+| ar_failed : forall s ex tmp d k,
+    attempt_run t s (mkAttempt ex tmp d Failed) (run s (store_fresh_failed ex tmp d k))
+| ar_died : forall s ex tmp d s', crashed s (store_fresh ex tmp t d) s' ->
+    attempt_run t s (mkAttempt ex tmp d Died) s'
+| ar_died_failing : forall s ex tmp d k s', crashed s (store_fresh_failed ex tmp d k) s' ->
+    attempt_run t s (mkAttempt ex tmp d Died) s'.
+
+(* [hist_run t s h l]: l = the file-system states after each attempt of h, started in s *)
+Inductive hist_run (t : path) : fs -> list attempt -> list fs -> Prop :=
+| hr_nil : forall s, hist_run t s [] []
+| hr_cons : forall s a s1 h l, attempt_run t s a s1 -> hist_run t s1 h l ->
+    hist_run t s (a :: h) (s1 :: l).
+
+Definition tmps_ok (t : path) (h : list attempt) : bool :=
+  forallb (fun a => negb (N.eqb (a_tmp a) t)) h.
+
+Definition spec_of (h : list attempt) : list (bytes * fate) := map (fun a => (a_data a, a_fate a)) h.
+
+(* THE SPECIFICATION over histories: after every attempt a reader of the target finds the complete
+   value of that attempt, or - only if the attempt did not complete - exactly what it found before. *)
+Fixpoint steps_ok (prev : option bytes) (h : list (bytes * fate)) (rs : list (option bytes)) : Prop :=
+  match h, rs with
+  | [], [] => True
+  | (d, f) :: h', r :: rs' => (r = Some d \/ (f <> Done /\ r = prev)) /\ steps_ok r h' rs'
+  | _, _ => False
+  end.
+
+(* ... hence after the whole history: the value of the last completed store, or the complete value of
+   one of the unfinished stores after it *)
+Fixpoint allowed (vs : list (option bytes)) (h : list (bytes * fate)) : list (option bytes) :=
+  match h with
+  | [] => vs
+  | (d, Done) :: r => allowed [Some d] r
+  | (d, _) :: r => allowed (Some d :: vs) r
+  end.
+
+(* The same on value identifiers, executable: the judge of the observed histories.  Values are
+   numbered (equal values share a number); a reading is the number of the value the real getter
+   returned, or ROther if it failed or returned something else. *)
+Inductive reading := RVal (v : N) | ROther.
+
+Definition reading_eqb (a b : reading) : bool :=
+  match a, b with RVal x, RVal y => N.eqb x y | ROther, ROther => true | _, _ => false end.
+
+Fixpoint hist_ok (prev : reading) (l : list (N * fate * reading)) : bool :=
+  match l with
+  | [] => true
+  | (v, f, r) :: l' =>
+      (reading_eqb r (RVal v) || (negb (fate_eqb f Done) && reading_eqb r prev)) && hist_ok r l'
+  end.
+
+Definition decode (val : N -> bytes) (r : reading) : option bytes :=
+  match r with RVal v => Some (val v) | ROther => None end.
+
+(* Recogniser "the outcome does not depend on leftovers": every file the trace reads from (appends to,
+   keeps the contents of, renames) is one whose contents the trace itself determined - it opened it
+   fresh, removed it, or it is in [known] (the target). *)
+Fixpoint mem (p : path) (l : list path) : bool :=
+  match l with [] => false | q :: r => N.eqb p q || mem p r end.
+
+Fixpoint determined (known : list path) (tr : list op) : bool :=
+  match tr with
+  | [] => true
+  | o :: r =>
+      match o with
+      | OpenTrunc p | OpenExcl p | Remove p => determined (p :: known) r
+      | Write p _ | OpenKeep p | WriteAt p _ _ => mem p known && determined known r
+      | Rename a b => mem a known && determined (a :: b :: known) r
+      | Fsync _ | Close _ => determined known r
+      | Unknown => false
+      end
+  end.
